@@ -101,12 +101,12 @@ var (
 // (source/fix44.xml + source/types.xml), read with the harness's own reader.
 func Fix44() ([]Template, error) {
 	fix44Once.Do(func() {
-		s, err := schema.Load(schema.RepoDir()+"/source/fix44.xml")
+		s, err := schema.Load(schema.RepoDir() + "/source/fix44.xml")
 		if err != nil {
 			fix44Err = err
 			return
 		}
-		tm, err := schema.LoadTypes(schema.RepoDir()+"/source/types.xml")
+		tm, err := schema.LoadTypes(schema.RepoDir() + "/source/types.xml")
 		if err != nil {
 			fix44Err = err
 			return
